@@ -290,7 +290,9 @@ class Schedule:  # 0404
             if not did_io:  # must know the version of the schedule about to be RQ'd
                 self._global_ver, _ = await self.tcs._schedule_version(force_io=True)
 
-            self._payload_set[0] = None  # if 1st frag valid: sched. likely unchanged
+            # must re-fetch every fragment: the 1st can be byte-identical when a later
+            # one has changed (the old set would then decode to the old schedule)
+            self._payload_set = list(EMPTY_PAYLOAD_SET)
             while frag_num := next(
                 i for i, f in enumerate(self._payload_set, 1) if f is None
             ):
